@@ -9,7 +9,8 @@
    is C08 (client_refines_spec, command_consumes_to_ack). *)
 From Coq Require Import ZArith NArith List Bool String.
 Require Import Base.Bytes Model.Frame Model.Config Model.Conc Model.Emulator Model.Link Spec.ConfigSpec Spec.Order
-  Gen.EmuSkeleton Proofs.LinkProofs Proofs.OrderProofs Tie.TranslationOk.
+  Gen.EmuSkeleton Gen.Funcs Gen.Layouts Model.Codec Model.Client Model.DataPath
+  Proofs.LinkProofs Proofs.OrderProofs Proofs.CodecProofs Proofs.DataPathProofs Tie.TranslationOk.
 Import ListNotations.
 Open Scope Z_scope.
 
@@ -68,6 +69,26 @@ Theorem C16_state_before_acknowledge :
   exists body, m_Receive = Loop body /\ forall l r, path body l r -> no_wr_after false l = true.
 Proof. apply receive_order_sound. vm_compute. reflexivity. Qed.
 Print Assumptions C16_state_before_acknowledge.
+
+(* (6) the value: a measurement of a configured type (Go type = the one the data type dispatches to, one field value per
+   layout field), marshalled by the emulator and sent as an MTData2 message, is reported by the client's Receive /
+   ScanMeasurementData / typed getter as exactly one packet of that Go type whose fields are the value at the
+   precision of that type's setting; values representable at the precision arrive unchanged.  The finite part
+   (generated dispatch table x coordinate systems x precisions: identifier bytes lead back to the same type and
+   precision, declared size = layout size < 256) is recomputed from the generated tables on every run. *)
+Theorem C16_configured_measurement_arrives : forall e s slot ty l vs,
+  NoDup (map stype (econf e)) -> In s (econf e) ->
+  let '(dt, c, p, _) := s in
+  lookup_z dt dispatch_table = Some (slot, ty) -> In c [0; 4; 8; 12] -> In p [0; 1; 2; 3] ->
+  dec_layout_of ty p = Some l -> length vs = length l ->
+  exists pkt, marshal_message e ty dt vs = Some pkt /\
+              client_values (data_frame pkt) = [option_map (fun q => (ty, q)) (at_precision ty p vs)] /\
+              at_precision ty p vs <> None.
+Proof. exact configured_measurement_arrives. Qed.
+Theorem C16_representable_values_unchanged : forall ty p l vs, dec_layout_of ty p = Some l ->
+  Forall2 (fun f v => field_value_ok (snd f) v) l vs -> at_precision ty p vs = Some vs.
+Proof. exact representable_values_arrive_unchanged. Qed.
+Print Assumptions C16_configured_measurement_arrives.
 
 (* non-vacuity: a concrete sequence with a shrinking reconfiguration under a non-canonical schedule *)
 Example C16_example :
